@@ -27,6 +27,7 @@
 #include "state.h"
 #include "util.h"
 #include "vector.h"
+#include "fiber.h"
 #endif
 
 /* Implements functionality to build a debugger from within janet.
@@ -343,8 +344,11 @@ static Janet doframe(JanetStackFrame *frame) {
                 Janet value = janet_wrap_nil();
                 uint32_t pc = (uint32_t)(frame->pc - def->bytecode);
                 if (jsm.birth_pc == UINT32_MAX) {
+                    /* (index checked by janet_verify; the length of the environment is only known here) */
                     JanetFuncEnv *env = frame->func->envs[jsm.death_pc];
-                    if (env->offset > 0) {
+                    if (env == NULL || !janet_env_valid(env) || jsm.slot_index >= (uint32_t) env->length) {
+                        value = janet_wrap_nil();
+                    } else if (env->offset > 0) {
                         value = env->as.fiber->data[env->offset + jsm.slot_index];
                     } else {
                         value = env->as.values[jsm.slot_index];
